@@ -540,6 +540,7 @@ func (p *pkg) emitRestGen() string {
 		isolate(e.key, func() string { return p.restFunction(e.key) })
 	}
 	rest.signed = false
+	isolate("NewDemuxer", func() string { return p.restNewDemuxer() })
 	return b.String()
 }
 
@@ -561,5 +562,381 @@ func (p *pkg) emitRestData() string {
 	var b strings.Builder
 	b.WriteString(restDataHeader)
 	p.emitGSections(&b, []gsection{{name: "ToData", entries: []string{"PSIData.toData"}}})
+	return b.String()
+}
+
+// ---------- NewDemuxer and the DemuxerOpt* options (Section NewDemuxer of Gen/RestGen.v) ----------
+//
+// Grammar (anything else is a genError):
+//   type Demuxer struct: fields of type pkg.T (abstract type pkg_T), a named func type F (option F: a func value may be
+//     nil), *S (option S_t, S_t abstract), int, []*T for a struct T of Gen/Types.v;
+//   an option: func X(a T) func(*Demuxer) { return func(d *Demuxer) { d.f = e } } with e the parameter or one call of a
+//     function outside the package applied to it;
+//   NewDemuxer: `d = &Demuxer{f: e, ...}`, then assignments `d.f = g(d.h)`, then `for _, opt := range opts { opt(d) }`,
+//     then `return`; e is a parameter or a call f() / f(nil) / f(x) of a function, which becomes a Section variable
+//     typed from the field it is stored in (nothing is assumed about it: newPacketPool may return nil as far as the
+//     translation is concerned).
+
+type ndField struct {
+	name, coq string
+	opt       bool // the Coq type is an option
+}
+
+type ndGen struct {
+	p      *pkg
+	t      *tr
+	types  []string        // abstract types, in order of first use
+	seen   map[string]bool // abstract types / variables declared
+	vars   []string        // Section variables (external functions)
+	fields []ndField
+	fidx   map[string]int
+	argT   map[string]string // declared parameter type of each Section variable
+}
+
+func (g *ndGen) abs(name string) string {
+	if !g.seen[name] {
+		g.seen[name] = true
+		g.types = append(g.types, name)
+	}
+	return name
+}
+
+// typ maps a Go type to its Coq type; opt reports a nil-able value (option).
+func (g *ndGen) typ(e ast.Expr) (string, bool) {
+	switch e := e.(type) {
+	case *ast.SelectorExpr:
+		if x, ok := e.X.(*ast.Ident); ok {
+			return g.abs(x.Name + "_" + e.Sel.Name), false
+		}
+	case *ast.StarExpr:
+		if id, ok := e.X.(*ast.Ident); ok {
+			if _, ok := g.p.structs[id.Name]; ok {
+				return "(option " + g.abs(id.Name+"_t") + ")", true
+			}
+		}
+	case *ast.Ident:
+		if u, ok := g.p.types[e.Name]; ok {
+			if _, ok := u.(*ast.FuncType); ok {
+				return "(option " + g.abs(e.Name) + ")", true
+			}
+		}
+		if e.Name == "int" {
+			return "Z", false
+		}
+	case *ast.ArrayType:
+		lt := g.t.goType(e)
+		if lt.k == "list" && lt.elem.k == "struct" {
+			return lt.coq(), false
+		}
+	}
+	g.t.fail(e, "NewDemuxer: unsupported type")
+	return "", false
+}
+
+func (g *ndGen) zero(f ndField, n ast.Node) string {
+	switch {
+	case f.opt:
+		return "None"
+	case f.coq == "Z":
+		return "0"
+	case strings.HasPrefix(f.coq, "(list "):
+		return "[]"
+	}
+	g.t.fail(n, "NewDemuxer: field %s has no zero value in the model and is not set", f.name)
+	return ""
+}
+
+// update renders d with field f replaced by v.
+func (g *ndGen) update(d, f, v string) string {
+	var fs []string
+	for _, x := range g.fields {
+		val := "(Demuxer_" + x.name + " " + d + ")"
+		if x.name == f {
+			val = v
+		}
+		fs = append(fs, "Demuxer_"+x.name+" := "+val)
+	}
+	return "{| " + strings.Join(fs, "; ") + " |}"
+}
+
+// value translates the right-hand side stored into field f: a parameter, or a call of a function (a Section variable).
+func (g *ndGen) value(e ast.Expr, f ndField, params map[string]string, dvar string) string {
+	switch e := e.(type) {
+	case *ast.Ident:
+		pt, ok := params[e.Name]
+		if !ok {
+			g.t.fail(e, "NewDemuxer: %s is not a parameter", e.Name)
+		}
+		if pt != f.coq {
+			g.t.fail(e, "NewDemuxer: parameter %s : %s stored in a field of type %s", e.Name, pt, f.coq)
+		}
+		return cname(e.Name)
+	case *ast.CallExpr:
+		var fname string
+		switch fn := e.Fun.(type) {
+		case *ast.Ident:
+			fname = fn.Name
+		case *ast.SelectorExpr:
+			if x, ok := fn.X.(*ast.Ident); ok {
+				fname = x.Name + "_" + fn.Sel.Name
+			}
+		}
+		if fname == "" || len(e.Args) > 1 {
+			g.t.fail(e, "NewDemuxer: unsupported call")
+		}
+		argT, arg := "", ""
+		if len(e.Args) == 1 {
+			switch a := e.Args[0].(type) {
+			case *ast.Ident:
+				if a.Name == "nil" {
+					// the callee's parameter type: from its declaration when it is a function of the package
+					if d, ok := g.p.funcs[fname]; ok && len(d.Type.Params.List) == 1 {
+						argT, _ = g.typ(d.Type.Params.List[0].Type)
+					} else if at, ok := g.argT[fname]; ok && strings.HasPrefix(at, "(option ") {
+						argT = at // an external function already applied to a value (the options are translated first)
+					} else {
+						g.t.fail(a, "NewDemuxer: nil handed to %s, whose parameter type is not known", fname)
+					}
+					arg = "None"
+				} else if pt, ok := params[a.Name]; ok {
+					argT, arg = "(option "+pt+")", "(Some "+cname(a.Name)+")"
+					if strings.HasPrefix(pt, "(option ") {
+						argT, arg = pt, cname(a.Name)
+					}
+				} else {
+					g.t.fail(a, "NewDemuxer: unsupported argument")
+				}
+			case *ast.SelectorExpr:
+				if !isIdent(a.X, dvar) {
+					g.t.fail(a, "NewDemuxer: unsupported argument")
+				}
+				i, ok := g.fidx[a.Sel.Name]
+				if !ok {
+					g.t.fail(a, "NewDemuxer: unknown field %s", a.Sel.Name)
+				}
+				argT, arg = g.fields[i].coq, "(Demuxer_"+a.Sel.Name+" "+dvar+")"
+			default:
+				g.t.fail(a, "NewDemuxer: unsupported argument")
+			}
+		}
+		typ := f.coq
+		if argT != "" {
+			typ = argT + " -> " + f.coq
+		}
+		decl := fmt.Sprintf("Variable %s : %s.\n", fname, typ)
+		if !g.seen["var:"+fname] {
+			g.seen["var:"+fname] = true
+			g.argT[fname] = argT
+			g.seen["decl:"+decl] = true
+			g.vars = append(g.vars, decl)
+		} else if !g.seen["decl:"+decl] {
+			g.t.fail(e, "NewDemuxer: %s is used at two types", fname)
+		}
+		if arg == "" {
+			return fname
+		}
+		return "(" + fname + " " + arg + ")"
+	}
+	g.t.fail(e, "NewDemuxer: unsupported value")
+	return ""
+}
+
+func (p *pkg) restNewDemuxer() string {
+	t := &tr{p: p, fn: "NewDemuxer", env: map[string]*ty{}}
+	g := &ndGen{p: p, t: t, seen: map[string]bool{}, fidx: map[string]int{}, argT: map[string]string{}}
+	st, ok := p.structs["Demuxer"]
+	if !ok {
+		panic(genError{"struct Demuxer not found in /repo"})
+	}
+	for _, f := range st.Fields.List {
+		c, opt := g.typ(f.Type)
+		for _, id := range f.Names {
+			g.fidx[id.Name] = len(g.fields)
+			g.fields = append(g.fields, ndField{id.Name, c, opt})
+		}
+	}
+	isOptType := func(e ast.Expr) bool {
+		ft, ok := e.(*ast.FuncType)
+		if !ok || ft.Results != nil && len(ft.Results.List) > 0 || len(ft.Params.List) != 1 {
+			return false
+		}
+		s, ok := ft.Params.List[0].Type.(*ast.StarExpr)
+		return ok && isIdent(s.X, "Demuxer")
+	}
+	// the options, in source order
+	type optDef struct {
+		name, par, parT, body string
+		pos                   token.Pos
+	}
+	var opts []optDef
+	var optNames []string
+	for name, d := range p.funcs {
+		if d.Recv == nil && d.Type.Results != nil && len(d.Type.Results.List) == 1 && isOptType(d.Type.Results.List[0].Type) {
+			optNames = append(optNames, name)
+		}
+	}
+	sort.Slice(optNames, func(i, j int) bool { return p.funcs[optNames[i]].Pos() < p.funcs[optNames[j]].Pos() })
+	for _, name := range optNames {
+		d := p.funcs[name]
+		t.fn = name
+		if len(d.Type.Params.List) != 1 || len(d.Type.Params.List[0].Names) != 1 || len(d.Body.List) != 1 {
+			t.fail(d, "option: expected one parameter and one statement")
+		}
+		par := d.Type.Params.List[0].Names[0].Name
+		parT, _ := g.typ(d.Type.Params.List[0].Type)
+		rs, ok := d.Body.List[0].(*ast.ReturnStmt)
+		if !ok || len(rs.Results) != 1 {
+			t.fail(d, "option: expected return func(d *Demuxer) {...}")
+		}
+		fl, ok := rs.Results[0].(*ast.FuncLit)
+		if !ok || !isOptType(fl.Type) || len(fl.Type.Params.List[0].Names) != 1 || len(fl.Body.List) != 1 {
+			t.fail(d, "option: expected a closure with one statement")
+		}
+		dv := fl.Type.Params.List[0].Names[0].Name
+		as, ok := fl.Body.List[0].(*ast.AssignStmt)
+		if !ok || as.Tok != token.ASSIGN || len(as.Lhs) != 1 || len(as.Rhs) != 1 {
+			t.fail(fl, "option: expected d.f = e")
+		}
+		sel, ok := as.Lhs[0].(*ast.SelectorExpr)
+		if !ok || !isIdent(sel.X, dv) {
+			t.fail(as, "option: expected d.f = e")
+		}
+		i, ok := g.fidx[sel.Sel.Name]
+		if !ok {
+			t.fail(as, "option: unknown field %s", sel.Sel.Name)
+		}
+		v := g.value(as.Rhs[0], g.fields[i], map[string]string{par: parT}, dv)
+		opts = append(opts, optDef{name, par, parT, g.update("d_", sel.Sel.Name, v), d.Pos()})
+	}
+	sort.Slice(opts, func(i, j int) bool { return opts[i].pos < opts[j].pos })
+	if len(opts) == 0 {
+		panic(genError{"NewDemuxer: no option found"})
+	}
+	// the constructor
+	t.fn = "NewDemuxer"
+	d, ok := p.funcs["NewDemuxer"]
+	if !ok {
+		panic(genError{"function NewDemuxer not found in /repo"})
+	}
+	params := map[string]string{}
+	var pdecl []string
+	optsVar := ""
+	for _, f := range d.Type.Params.List {
+		for _, id := range f.Names {
+			if el, ok := f.Type.(*ast.Ellipsis); ok && isOptType(el.Elt) {
+				optsVar = id.Name
+				pdecl = append(pdecl, fmt.Sprintf("(%s : list DemuxerOpt)", cname(id.Name)))
+				continue
+			}
+			c, _ := g.typ(f.Type)
+			params[id.Name] = c
+			pdecl = append(pdecl, fmt.Sprintf("(%s : %s)", cname(id.Name), c))
+		}
+	}
+	if optsVar == "" || d.Type.Results == nil || len(d.Type.Results.List) != 1 || len(d.Type.Results.List[0].Names) != 1 {
+		t.fail(d, "NewDemuxer: expected opts ...func(*Demuxer) and one named result")
+	}
+	dv := d.Type.Results.List[0].Names[0].Name
+	body := d.Body.List
+	if len(body) < 3 {
+		t.fail(d, "NewDemuxer: unexpected body")
+	}
+	var out strings.Builder
+	// d = &Demuxer{...}
+	as, ok := body[0].(*ast.AssignStmt)
+	if !ok || as.Tok != token.ASSIGN || len(as.Lhs) != 1 || !isIdent(as.Lhs[0], dv) || len(as.Rhs) != 1 {
+		t.fail(body[0], "NewDemuxer: expected d = &Demuxer{...}")
+	}
+	ue, ok := as.Rhs[0].(*ast.UnaryExpr)
+	if !ok || ue.Op != token.AND {
+		t.fail(body[0], "NewDemuxer: expected d = &Demuxer{...}")
+	}
+	cl, ok := ue.X.(*ast.CompositeLit)
+	if !ok || !isIdent(cl.Type, "Demuxer") {
+		t.fail(body[0], "NewDemuxer: expected d = &Demuxer{...}")
+	}
+	vals := map[string]string{}
+	for _, el := range cl.Elts {
+		kv, ok := el.(*ast.KeyValueExpr)
+		if !ok {
+			t.fail(el, "NewDemuxer: unkeyed composite literal")
+		}
+		k := kv.Key.(*ast.Ident).Name
+		i, ok := g.fidx[k]
+		if !ok {
+			t.fail(kv, "NewDemuxer: unknown field %s", k)
+		}
+		vals[k] = g.value(kv.Value, g.fields[i], params, "")
+	}
+	var fs []string
+	for _, f := range g.fields {
+		v, ok := vals[f.name]
+		if !ok {
+			v = g.zero(f, cl)
+		}
+		fs = append(fs, "Demuxer_"+f.name+" := "+v)
+	}
+	fmt.Fprintf(&out, "  let %s := {| %s |} in\n", cname(dv), strings.Join(fs, "; "))
+	// d.f = g(d.h) ...
+	i := 1
+	for ; i < len(body)-2; i++ {
+		as, ok := body[i].(*ast.AssignStmt)
+		if !ok || as.Tok != token.ASSIGN || len(as.Lhs) != 1 || len(as.Rhs) != 1 {
+			t.fail(body[i], "NewDemuxer: expected d.f = e")
+		}
+		sel, ok := as.Lhs[0].(*ast.SelectorExpr)
+		if !ok || !isIdent(sel.X, dv) {
+			t.fail(body[i], "NewDemuxer: expected d.f = e")
+		}
+		fi, ok := g.fidx[sel.Sel.Name]
+		if !ok {
+			t.fail(as, "NewDemuxer: unknown field %s", sel.Sel.Name)
+		}
+		fmt.Fprintf(&out, "  let %s := %s in\n", cname(dv), g.update(cname(dv), sel.Sel.Name, g.value(as.Rhs[0], g.fields[fi], params, dv)))
+	}
+	// for _, opt := range opts { opt(d) }
+	rs, ok := body[i].(*ast.RangeStmt)
+	if !ok || !isIdent(rs.X, optsVar) || rs.Value == nil || (rs.Key != nil && !isIdent(rs.Key, "_")) || len(rs.Body.List) != 1 {
+		t.fail(body[i], "NewDemuxer: expected for _, opt := range opts { opt(d) }")
+	}
+	es, ok := rs.Body.List[0].(*ast.ExprStmt)
+	if !ok {
+		t.fail(body[i], "NewDemuxer: expected opt(d)")
+	}
+	call, ok := es.X.(*ast.CallExpr)
+	if !ok || !isIdent(call.Fun, rs.Value.(*ast.Ident).Name) || len(call.Args) != 1 || !isIdent(call.Args[0], dv) {
+		t.fail(body[i], "NewDemuxer: expected opt(d)")
+	}
+	fmt.Fprintf(&out, "  let %s := fold_left (fun d_ o_ => DemuxerOpt_apply o_ d_) %s %s in\n", cname(dv), cname(optsVar), cname(dv))
+	if r, ok := body[i+1].(*ast.ReturnStmt); !ok || len(r.Results) != 0 {
+		t.fail(body[i+1], "NewDemuxer: expected a bare return")
+	}
+	fmt.Fprintf(&out, "  %s.\n\n", cname(dv))
+
+	var b strings.Builder
+	b.WriteString("(* ---- demuxer.go: NewDemuxer and its options ---- *)\nSection NewDemuxer.\n")
+	fmt.Fprintf(&b, "Context {%s : Type}.\n", strings.Join(g.types, " "))
+	for _, v := range g.vars {
+		b.WriteString(v)
+	}
+	b.WriteString("\nRecord Demuxer := mk_Demuxer {\n")
+	for i, f := range g.fields {
+		sep := ";"
+		if i == len(g.fields)-1 {
+			sep = ""
+		}
+		fmt.Fprintf(&b, "  Demuxer_%s : %s%s\n", f.name, f.coq, sep)
+	}
+	b.WriteString("}.\n\n(* the options of the package: every function returning a closure that takes the Demuxer *)\nInductive DemuxerOpt : Type :=\n")
+	for _, o := range opts {
+		fmt.Fprintf(&b, "| %s (%s : %s)\n", o.name, cname(o.par), o.parT)
+	}
+	b.WriteString(".\n\nDefinition DemuxerOpt_apply (o_ : DemuxerOpt) (d_ : Demuxer) : Demuxer :=\n  match o_ with\n")
+	for _, o := range opts {
+		fmt.Fprintf(&b, "  | %s %s => %s\n", o.name, cname(o.par), o.body)
+	}
+	b.WriteString("  end.\n\n")
+	fmt.Fprintf(&b, "Definition NewDemuxer %s : Demuxer :=\n%s", strings.Join(pdecl, " "), out.String())
+	b.WriteString("End NewDemuxer.\n\n")
 	return b.String()
 }
